@@ -5,7 +5,8 @@ those) the whole pipeline is interpreted from the parsed program: the pattern pa
 op-code map through XPathExpression's own functions (appendOpCode, insertOpCode, updateOpCodeLength ...), and the matcher (XPath::getMatchScore, locationPathPattern,
 stepPattern, NodeTester's constructor and test functions) reading it.  Nodes are abstract objects offering DOM navigation and names.  The verdict "node N matches pattern
 P" must be the definition of XSLT 1.0 5.2: N has an ancestor-or-self A such that evaluating P as an expression with A as context selects N - computed by a small
-reference evaluator.  Predicates (and id / key) are out of this rule's reach: they need the expression interpreter (C09-R3, R4, R6 look at their handling)."""
+reference evaluator.  Patterns that start with id() / key() are included with the call itself as a model (the node-set it selects).  Predicates other than literal positions are out of this
+rule's reach: they need the expression interpreter (C09-R3, R4, R6 look at their handling)."""
 import itertools
 from ..build import AnalysisBroken
 from ..mast import Unsupported, callee, strip_casts, pp
@@ -264,10 +265,32 @@ class NList:
 
 
 class PWorld(MWorld):
+    idset = None        # the nodes id('k') / key('k', 'v') select, for patterns that start with a function call
+
     def hook(self, m, c):
         k = c['k']
         n = c.get('n') or (callee(c).split('::')[-1] if c.get('fn') != '<memptr>' else '<memptr>')
         cls = c.get('cls') or ''
+        if self.idset is not None:
+            if k == 'Call' and n == 'isInstalledFunction':
+                return int(m.ev(c['args'][0]) in ('id', 'key'))
+            if k == 'MCall' and n == 'nameToID':
+                return {'id': 1, 'key': 2}.get(m.ev(c['args'][0]), -1)
+            if k == 'MCall' and n == 'executeMore' and len(c.get('args', [])) == 3 and (strip_casts(c.get('obj')) or {}).get('k') == 'This' and isinstance(m.this, Obj) and m.this.cls.endswith('XPath'):
+                ops = m.this.fields['m_expression'].fields['m_opMap'].items
+                pos = m.ev(c['args'][1])
+                if isinstance(pos, It):
+                    ops, pos = pos.vec.items, pos.i
+                if isinstance(pos, int) and 0 <= pos < len(ops) and ops[pos] == self.facts.enumconst.get(NS + 'XPathExpression::eOP_FUNCTION'):
+                    # the call itself (FunctionID / FunctionKey, C12-R9's and C02's business): the node-set it selects, in document order
+                    nl = NList()
+                    nl.items = list(self.idset)
+                    nl.flag = 'document'
+                    return ('XOBJ', 'nodeset', nl)
+            if k == 'MCall':
+                tgt0 = m.target_obj(c)
+                if isinstance(tgt0, tuple) and tgt0 and tgt0[0] == 'XOBJ' and tgt0[1] == 'nodeset' and n == 'nodeset':
+                    return tgt0[2]
         if k == 'Ctor' and ('BorrowReturnMutableNodeRefList' in cls or 'GetCachedNodeList' in cls):
             return NList()
         if k == 'Ctor' and ('PushAndPop' in cls or 'SetAndRestore' in cls):
@@ -461,6 +484,8 @@ def step_matches(step, n):
         for k in idx:
             sibs = [sibs[k - 1]] if 1 <= k <= len(sibs) else []
         return n in sibs
+    if step and step[0] in ('id', 'key') and step[1:2] == ['(']:
+        return bool(getattr(n, 'isid', False))          # the call selects the marked nodes, whatever the context
     if step == ['a'] or step == ['b']:
         return n.kind == 'elem' and n.local == step[0]
     if step == ['*']:
@@ -604,6 +629,23 @@ def run_rule(res, facts, tier):
             for sep1, sep2 in itertools.product((['/'], ['/', '/']), repeat=2):
                 if tier == 'thorough' or (sep1, sep2) != (['/'], ['/']):
                     pats.append(s1 + sep1 + ex + sep2 + s3)
+    # patterns that start with id() / key() (XSLT 1.0 5.2: IdKeyPattern, alone or followed by / or // and steps); the call selects two marked elements, one of which
+    # has element children, an attribute and a grandchild, so that children, attributes and deeper descendants of a selected node all occur
+    ids = [nd for nd in nodes if nd.name in ('/a[1]/b[1]', '/a[1]/b[2]')]
+    if len(ids) != 2:
+        raise AnalysisBroken('the tree of C09-R9 no longer has the two elements the function patterns select')
+    for nd in ids:
+        nd.isid = True
+    w.idset = ids
+    for fcall in (['id', '(', "'k'", ')'], ['key', '(', "'n'", ',', "'v'", ')']):
+        pats.append(list(fcall))
+        for st in STEPS + EXPLICIT_STEPS[:1] + INDEXED_STEPS[:2]:
+            for sep in (['/'], ['/', '/']):
+                pats.append(fcall + sep + st)
+                for s2 in (['b'], ['*'], ['@', 'y'], ['text', '(', ')']):
+                    for sep2 in (['/'], ['/', '/']):
+                        if fcall[0] == 'id' or (sep, sep2) == (['/', '/'], ['/']):
+                            pats.append(fcall + sep + st + sep2 + s2)
     uniq, seen = [], set()
     for toks in pats:
         if tuple(toks) not in seen:
@@ -659,7 +701,7 @@ def run_rule(res, facts, tier):
                     cnt['n'] += 1
                     continue
                 lead, steps = split(toks)
-                shape = (lead or 'rel') + ' ' + ' '.join((s or '') + ('@' if st[0] == '@' else ('t' if st[0] in ('text', 'node') else 'n')) + ('[i]' if '[' in st else '') for s, st in steps)
+                shape = (lead or 'rel') + ' ' + ' '.join((s or '') + ('@' if st[0] == '@' else ('t' if st[0] in ('text', 'node') else ('id()' if st[0] in ('id', 'key') else 'n'))) + ('[i]' if '[' in st else '') for s, st in steps)
                 key = (shape, bool(want))
                 if key not in found:
                     found[key] = (ptxt, nd.name, got, want)
